@@ -118,7 +118,9 @@ async fn fanout_case(client: &Client, log: &EvLog, run: u64, sched: &Value, topi
                     if tokio::time::Instant::now() > deadline {
                         break;
                     }
+                    let before = sent.get(&0).copied().unwrap_or(0);
                     publish!(sync_pub.as_mut().unwrap(), 0u64);
+                    let t_round = tokio::time::Instant::now();
                     while let Ok(Some((p, n))) = tokio::time::timeout(Duration::from_millis(25), rx.recv()).await {
                         log.emit("sub_item", json!({"sub": id, "pub": p, "n": n}));
                         last.insert(p, n);
@@ -126,6 +128,14 @@ async fn fanout_case(client: &Client, log: &EvLog, run: u64, sched: &Value, topi
                             synced = true;
                             break;
                         }
+                        if p == u64::MAX {
+                            break;
+                        }
+                    }
+                    // a marker that could not be sent, or a subscriber that has ended, comes back at once: one
+                    // round takes its 25 ms all the same (no flood of events, no busy loop)
+                    if !synced && (sent.get(&0).copied().unwrap_or(0) == before || t_round.elapsed() < Duration::from_millis(20)) {
+                        tokio::time::sleep(Duration::from_millis(25)).await;
                     }
                 }
                 // everything published from now on is owed to this subscriber
